@@ -55,6 +55,7 @@ func (self *Transformer) stmtVariants(node ast.AnalyzedStatement) []ast.Analyzed
 			VarType:                    node.VarType,
 			NeedsRuntimeTypeValidation: node.NeedsRuntimeTypeValidation,
 			OptType:                    node.OptType,
+			IsPub:                      node.IsPub,
 			Range:                      node.Range,
 		})
 	case ast.ReturnStatementKind:
